@@ -744,7 +744,7 @@ class Interp:
             return None
         if len(itv.refs) == 1 and not itv.consts and not itv.top:
             n = next(iter(itv.refs))
-            if isinstance(n, Seq) and n.items is not None and n._elem.bottom and len(n.items) <= 8:
+            if isinstance(n, Seq) and n.items is not None and n._elem.bottom and len(n.items) <= 64:
                 return list(n.items)
         return None
 
@@ -1635,6 +1635,33 @@ class Interp:
 
     def _comp(self, e, env, fr, kind):
         s = self.seq(fr, e, kind)
+        if kind in ("list", "iter") and len(e.generators) == 1:
+            # a comprehension over a sequence of known length keeps its order: `"|".join(re.escape(a) for a in ARROWS)`
+            g = e.generators[0]
+            items = self.unrolled(g.iter, self.ev(g.iter, env, fr))
+            if items is not None:
+                out: list[AV] = []
+                exact = True
+                for el in items:
+                    e2 = dict(env)
+                    self.assign(g.target, el, e2, fr, g, None)
+                    keep = True
+                    for c in g.ifs:
+                        t, f, ft, _ff = self.test(c, e2, fr)
+                        if t and f:
+                            exact = False
+                        if not t:
+                            keep = False
+                            break
+                        e2 = self.narrowed(e2, ft)
+                    if keep:
+                        out.append(self.ev(e.elt, e2, fr).plain())
+                if exact and len(out) <= 64:
+                    s.items = out if s.items is None or len(s.items) != len(out) else [join(a, b) for a, b in zip(s.items, out)]
+                    return ref(s)
+                for o in out:
+                    self.grow_elem(s, o)
+                return ref(s)
         self._generators(e.generators, dict(env), fr, (fr.ctx, id(e)), lambda e2: self.grow_elem(s, self.ev(e.elt, e2, fr)))
         return ref(s)
 
@@ -1960,7 +1987,13 @@ class Interp:
         star: list[bool] = []
         for a in e.args:
             if isinstance(a, ast.Starred):
-                args.append(self.iterate(self.ev(a.value, env, fr), None, fr, None))
+                sv = self.ev(a.value, env, fr)
+                fixed = self.unrolled(a.value, sv)
+                if fixed is not None and len(fixed) <= 16:
+                    args += fixed
+                    star += [False] * len(fixed)
+                    continue
+                args.append(self.iterate(sv, None, fr, None))
                 star.append(True)
             else:
                 args.append(self.ev(a, env, fr))
@@ -2177,7 +2210,7 @@ class Interp:
         """A list / tuple display whose items are all known constants, as a constant tuple."""
         if len(av.refs) == 1 and not av.consts and not av.top:
             n = next(iter(av.refs))
-            if isinstance(n, Seq) and n.items is not None and n._elem.bottom and n.kind in ("list", "tuple") and all(i.concrete for i in n.items):
+            if isinstance(n, Seq) and n.items is not None and n._elem.bottom and n.kind in ("list", "tuple", "iter") and all(i.concrete for i in n.items):
                 k = 1
                 for i in n.items:
                     k *= len(i.consts)
@@ -2604,6 +2637,11 @@ class Interp:
             t = self.seq(fr, e, "tuple", "zip-pair")
             t.items = [self.iterate(a, None, fr, None) for a in args]
             self.grow_elem(s, ref(t))
+            return ref(s)
+        if name == "map" and len(args) == 2 and self.unrolled(e, args[1]) is not None:
+            s = self.seq(fr, e, "iter", "map")
+            out = [self.call_value(a0, [x], {}, fr, e, tag=("map", i)).plain() for i, x in enumerate(self.unrolled(e, args[1]))]
+            s.items = out if s.items is None or len(s.items) != len(out) else [join(a, b) for a, b in zip(s.items, out)]
             return ref(s)
         if name == "map":
             s = self.seq(fr, e, "iter", "map")
